@@ -1,6 +1,7 @@
 import BSModel.Driver.Util
 import BSModel.Model.Search
 import BSModel.Model.SearchHeap
+import BSModel.Model.Css
 /-! Line protocol for C10 (see harness/c10.py for the encoder).
 
 `find <variant> <tree> <start> <family> <form> <limit> <name> <attrs> <string> <kwargs> <re> <ft> <fs>`
@@ -176,8 +177,37 @@ def handleH : List String → String
     | none => "bad-op"
   | _ => "bad-op"
 
+/-! `cssd <entry> <sel s|c> <ns none|given> <limit unset|none|N> <flags unset|N> <extra 0|1>`: the soupsieve call the
+entry point makes (BS.Css.dispatch), canonically. -/
+def handleCss : List String → String
+  | [entry, sel, ns, limit, flags, extra] =>
+    let e? : Option BS.Css.Entry := match entry with
+      | "tag.select" => some .tagSelect | "tag.select_one" => some .tagSelectOne
+      | "css.select" => some .cssSelect | "css.select_one" => some .cssSelectOne | "css.iselect" => some .cssIselect
+      | "css.closest" => some .cssClosest | "css.match" => some .cssMatch | "css.filter" => some .cssFilter
+      | "css.compile" => some .cssCompile | _ => none
+    match e? with
+    | none => "bad-op"
+    | some e =>
+      let a : BS.Css.Args :=
+        { sel := if sel == "c" then .compiled 0 else .str 0
+          ns := if ns == "given" then .given 0 else .none
+          limit := if limit == "unset" then .unset else if limit == "none" then .none else .n limit.toNat!
+          flags := if flags == "unset" then none else flags.toNat?
+          extra := extra == "1" }
+      let (c, wrap) := BS.Css.dispatch e 1 a
+      let fn := match c.fn with
+        | .select => "select" | .selectOne => "select_one" | .iselect => "iselect" | .closest => "closest"
+        | .match_ => "match" | .filter => "filter" | .compile => "compile"
+      let selS := match c.sel with | .str _ => "s" | .compiled _ => "c"
+      let nsS := match c.ns with | .none => "none" | .given _ => "given" | .tagNamespaces => "tagns"
+      let limS := match c.limit with | .notTaken => "-" | .none => "~" | .n k => toString k
+      s!"fn={fn} sel={selS} tag={bit c.tag.isSome} ns={nsS} limit={limS} flags={c.flags} extra={bit c.extra} wrap={bit wrap}"
+  | _ => "bad-op"
+
 def handle : List String → String
   | "findh" :: rest => handleH rest
+  | "cssd" :: rest => handleCss rest
   | ["find", var, tree, start, fam, form, limit, name, attrs, string, kw, re, ft, fs] =>
     match parseTree tree, parseFam fam with
     | some root, some f =>
